@@ -433,6 +433,24 @@ func (c *binClient) Send(r *ReqRec) error {
 	return err
 }
 
+// SendBatch writes several requests in one write (a pipelining client).
+func (c *binClient) SendBatch(rs []*ReqRec) error {
+	var out []byte
+	for _, r := range rs {
+		cmd := &protocol.LockCommand{}
+		r.Op.fill(cmd, r.Id)
+		buf := make([]byte, 64)
+		_ = cmd.Encode(buf)
+		if cmd.Data != nil {
+			buf = append(buf, cmd.Data.Data...)
+		}
+		r.Sent = true
+		out = append(out, buf...)
+	}
+	_, err := c.conn.Write(out)
+	return err
+}
+
 func (c *binClient) WriteRaw(b []byte) error { _, err := c.conn.Write(b); return err }
 
 func (c *binClient) Close() {
